@@ -27,8 +27,10 @@ INFO = dict(
               "quantisation bound; exporter and importer agree on (format, compressed) for EVERY file name; the overwrite "
               "guard as an invariant of a file-system model over every export history and every spelling _norm_path "
               "understands (~, $VAR, ${VAR}, ./.., str/Path); menpo's code around Python's serialiser) + regenerated "
-              "extension dictionaries with decide obligations + model/implementation correspondence and a bytes-level "
-              "oracle on real files",
+              "extension dictionaries with decide obligations + 25 functions of the anchored code TRANSLATED FROM THE "
+              "SOURCE TEXT of the working tree on every run (harness/trans_c16.py over harness/py2lean2.py) and proved "
+              "equal, for all arguments, to the specifications the guard / agreement / round-trip theorems are about + "
+              "model/implementation correspondence and a bytes-level oracle on real files",
     level_text="Theorems over an executable model of ljson_exporter/tojson/ljson_importer with all three parsers "
                "(identical coordinates incl. missing values, symmetrised edge set, labels in order, group names, version "
                "dispatch; the first import is a fixed point of any number of further export/import cycles; every "
@@ -67,8 +69,32 @@ INFO = dict(
                "decide obligations over tables regenerated from the live code on every run: the exporter / importer "
                "dictionaries (observed through the public export_* / import_* entry points; the agreement theorem is "
                "instantiated at them), _ljson_parser_for_version (ljson_importer = lookup in that table) and the "
-               "version number the live ljson_exporter writes.",
-    level_note="Trusted: Lean kernel; axioms propext/Classical.choice/Quot.sound; harness; driver parser.  That rn53 (the "
+               "version number the live ljson_exporter writes.  TRANSLATED rather than transcribed (source text of the "
+               "working tree -> Lean on every run, Generated/C16Src{Pure,IO,Fmt}.lean; GenProps/C16Src*.lean prove "
+               "translated = specification for all arguments): menpo.io.utils._normalize_extension, "
+               "_possible_extensions_from_filepath, _norm_path; menpo.io.output.base._parse_and_validate_extension, "
+               "_enforce_only_paths_supported, _validate_filepath, _extension_to_export_function, "
+               "_validate_and_get_export_func (both values of return_extension), _export (str, Path and file-object "
+               "branches), _export_paths_only, export_pickle, export_landmark_file, export_image, export_video; "
+               "menpo.io.input.base.importer_for_filepath; menpo.io.output.landmark.ljson_exporter, pts_exporter; "
+               "menpo.io.input.landmark.pts_importer, ljson_importer (version dispatch), _ljson_parse_null_values, "
+               "_parse_ljson_v3, _parse_ljson_v2, _parse_ljson_v1 (on the typed form of a schema-valid document); "
+               "menpo.image.base.normalize_pixels_range, denormalize_pixels_range.  The guard (refusal = OverwriteError "
+               "and an untouched file system, frame, every history over export_image / export_landmark_file / "
+               "export_pickle / export_video), the exporter/importer agreement with the live dictionaries, the LJSON "
+               "round trip (translated writer -> translated version dispatch -> translated version-3 parser), the "
+               "points-file round trip at file level and the eight-bit round trip are stated FOR THE TRANSLATED "
+               "FUNCTIONS (GenProps/C16SrcGuard.lean, C16SrcFmt.lean).  _norm_path is modelled as the code composes it, "
+               "string by string (str(Path), expanduser, expandvars, os.path.normpath incl. the two-leading-slashes "
+               "rule, os.path.abspath) and PROVED to name the file of the direct component model (key_normPathSpec); "
+               "each of these library functions is compared with Python on generated strings on every run, the "
+               "document the exporter writes is compared as a value tree with the file on disk, and hand-written "
+               "version 1 / 2 / 3 documents (ragged rows, indices outside the point set, repeated labels, unlabelled "
+               "points) go through the real importer and the specifications of the translated parsers.",
+    level_note="Trusted: Lean kernel; axioms propext/Classical.choice/Quot.sound; harness; driver parser; the source-to-Lean "
+               "translator (harness/py2lean2.py + Translator16 and the rule tables of harness/trans_c16.py: each rule maps "
+               "one Python expression of the io code to the model operation of the same name; the operations that stand "
+               "for library calls are compared with the library on every run).  That rn53 (the "
                "rational model of binary64 round-to-nearest-even), Lean's Float and numpy's float64 agree is not "
                "assumed: checked on every run on all 65 536 + 256 levels (sets of lost levels under truncation and "
                "under rounding).  Contract parameters (not verified, checked on every run): json (value tree written = "
@@ -91,8 +117,21 @@ INFO = dict(
              "sixteen-bit data: proved for normalize_pixels_range -> denormalize_pixels_range (the only place menpo "
              "handles uint16: the importer rejects 16-bit PIL modes and the exporter always writes uint8), tied by the "
              "exhaustive correspondence of all 65 536 levels; float images are quantised to 8 bits only",
-             "path spellings: '~user' for an existing user, HOME unset (both consult the password database) and a "
-             "result with exactly two leading slashes are not modelled; symbolic links are not modelled",
+             "path spellings: '~user' for an existing user and HOME unset (both consult the password database) are not "
+             "modelled; symbolic links are not modelled",
+             "export_pickle validates the name of the handle it has just opened a second time (inside _export): that the "
+             "second normalisation of the already normalised path parses to the same extension is a hypothesis of "
+             "pickle_written (hstable: true whenever the normalised path holds no $VAR that is set), not a theorem; "
+             "the guard and frame theorems for export_pickle do not need it",
+             "the LJSON parsers are translated on the TYPED form of a schema-valid document (a group has points, optional "
+             "connectivity, labels with label / mask): which keys they subscript in the tree json.load returns is part "
+             "of the rules, so a tree that lacks a key or holds a value of another JSON type is covered by the "
+             "hand-transcribed decodeDoc (Core/C16.lean) and the correspondence only; pickle_exporter / "
+             "pickle_paths_as_pure / _import's attach_path (a generator context manager and a nested def that "
+             "mutates aliased objects) remain hand-transcribed (Core/C16Pickle.lean)",
+             "sixteen-bit levels pass the [0, 1] range check of denormalize_pixels_range: proved for every eight-bit "
+             "level by kernel evaluation (normQ_255_le_one) and a hypothesis of pixels_roundtrip_translated for "
+             "N = 65535 (checked on all 65 536 levels by the correspondence)",
              "the points format holds two axes: a 3-D shape exported as .pts comes back 2-D (ptsN_drops_higher_axes "
              "models it; the property's three-decimal clause is checked on the two axes the format has)",
              "JPEG and other lossy codecs are covered by the overwrite guard and the name/importer agreement only; "
@@ -103,8 +142,9 @@ INFO = dict(
                  "no user called c16nosuchuser exists; the harness sets HOME, C16ROOT, C16SUB for the duration of a "
                  "guard / normalisation case and restores them"],
     design_ref="DESIGN.md section 6, C16")
-IMPORTS = ["MenpoModel.Props.C16", "MenpoModel.Props.C16V1"]
-TARGETS = ["MenpoModel.Props.C16", "MenpoModel.Props.C16V1", "MenpoModel.Drive.C16"]
+IMPORTS = ["MenpoModel.Props.C16", "MenpoModel.Props.C16V1", "MenpoModel.Props.C16Src", "MenpoModel.Lemmas.C16NormStr"]
+TARGETS = ["MenpoModel.Props.C16", "MenpoModel.Props.C16V1", "MenpoModel.Props.C16Src", "MenpoModel.Lemmas.C16NormStr",
+           "MenpoModel.Drive.C16"]
 THEOREMS = [
     "MenpoModel.C16.ljson_roundtrip", "MenpoModel.C16.ljson_group_names", "MenpoModel.C16.ljson_group_content",
     "MenpoModel.C16.ljson_edges_stable", "MenpoModel.C16.ljson_cycle_fixed_point", "MenpoModel.C16.ljson_version_dispatch",
@@ -145,6 +185,20 @@ THEOREMS = [
     "MenpoModel.C16.purify_noop", "MenpoModel.C16.purify_pathFree", "MenpoModel.C16.pickle_roundtrip_dict",
     "MenpoModel.C16.pickle_roundtrip_list", "MenpoModel.C16.pickle_singleton_list_unwrapped",
     "MenpoModel.C16.hook_restored",
+    # the guard and the agreement for the SPECIFICATIONS the translated export plumbing is proved equal to
+    # (Props/C16Src.lean; restated for the translated functions themselves in GenProps/C16SrcGuard.lean)
+    "MenpoModel.C16.validateAndGet_reads_only", "MenpoModel.C16.validateAndGet_overwriteError_iff",
+    "MenpoModel.C16.validateAndGetSpec_ne_attr", "MenpoModel.C16.export_refused", "MenpoModel.C16.export_refused_iff",
+    "MenpoModel.C16.export_frame", "MenpoModel.C16.export_failed_untouched", "MenpoModel.C16.export_written",
+    "MenpoModel.C16.pathsOnly_refused", "MenpoModel.C16.pathsOnly_frame", "MenpoModel.C16.pickle_refused",
+    "MenpoModel.C16.pickle_refused_iff", "MenpoModel.C16.pickle_frame", "MenpoModel.C16.exportHandle_ne_over",
+    "MenpoModel.C16.exportHandle_frame", "MenpoModel.C16.landmark_multi_reaches_export", "MenpoModel.C16.landmark_guard",
+    "MenpoModel.C16.landmark_frame", "MenpoModel.C16.video_refused", "MenpoModel.C16.video_frame",
+    "MenpoModel.C16.pickle_written", "MenpoModel.C16.pickle_reader_agrees", "MenpoModel.C16.export_reader_agrees",
+    "MenpoModel.C16.keysNormal_tables", "MenpoModel.C16.history_never_clobbers", "MenpoModel.C16.history_frame",
+    # `_norm_path` as the code composes it, string by string, names the file of the direct model (Lemmas/C16NormStr.lean)
+    "MenpoModel.C16.resolve_osNormpath", "MenpoModel.C16.resolve_osAbspath", "MenpoModel.C16.resolve_pathStr",
+    "MenpoModel.C16.key_normPathSpec",
 ]
 
 TRUNC24 = [33, 37, 41, 45, 49, 53, 57, 61, 66, 74, 82, 90, 98, 106, 114, 122, 132, 148, 164, 180, 196, 212, 228, 244]
@@ -292,6 +346,56 @@ def generated(ctx):
                                                    "ljsonExportedVersion_ok)"
         ctx.broken_obligations[-1]["observed"] = t
     return ok
+
+
+def generated_src(ctx):
+    """the io plumbing TRANSLATED from the source text of the working tree (harness/trans_c16.py) and proved equal to
+    its specification (GenProps/C16Src*.lean); returns (modules to audit, theorems to audit) of the units that check"""
+    from . import trans_c16
+    mods, thms = [], []
+    notes = ctx.notes.setdefault("translated_from_source", {})
+    broken = False
+    for u in trans_c16.units():
+        if "text" not in u:                           # theorems about the translated functions of the units before
+            if broken:                                # already reported with the unit that broke
+                ctx.gen_obligations += len(u["theorems"])
+                notes[u["name"]] = {"status": "not built: a unit it is about no longer checks"}
+                continue
+            ok = common.build_generated(ctx, {}, u["targets"], len(u["theorems"]))
+            notes[u["name"]] = {"status": "ok" if ok else "broken"}
+            if ok:
+                mods.append(u["targets"][-1])
+                thms += u["theorems"]
+            elif ctx.broken_obligations:
+                ctx.broken_obligations[-1]["obligation"] = "theorems about the translated functions: " + ", ".join(
+                    t.split(".")[-1] for t in u["theorems"])
+            continue
+        try:
+            text, why = u["text"]()
+        except Exception as e:                       # noqa: BLE001 - the source no longer has the shape of a function
+            text, why = None, ["%s: %s" % (type(e).__name__, e)]
+        notes[u["name"]] = {"functions": u["functions"], "status": "ok" if not why else "untranslatable: " + "; ".join(why)}
+        if text is None:
+            broken = broken or not u.get("independent")
+            ctx.gen_obligations += len(u["theorems"])
+            ctx.broken_obligations.append({"targets": u["targets"], "errors": why, "obligation": "translation of " +
+                                           ", ".join(u["functions"])})
+            continue
+        if broken and not u.get("independent"):      # it imports a unit that no longer checks
+            common.write_if_changed(os.path.join(common.LEAN, u["rel"]), text)
+            ctx.gen_obligations += len(u["theorems"])
+            notes[u["name"]]["status"] += " (not built: it imports a unit that no longer checks)"
+            continue
+        ok = common.build_generated(ctx, {u["rel"]: text}, u["targets"], len(u["theorems"]))
+        if ok:
+            mods.append(u["targets"][1])
+            thms += u["theorems"]
+        else:
+            broken = broken or not u.get("independent")
+            if ctx.broken_obligations:
+                ctx.broken_obligations[-1]["obligation"] = "translated = specification for " + ", ".join(u["functions"])
+                ctx.broken_obligations[-1]["untranslatable"] = why
+    return mods, thms
 
 
 # --------------------------------------------------------------------------------------------- scratch
@@ -638,6 +742,44 @@ def case_ljson(run, p):
             for l, m in lm:
                 exp += [lid.get(l, "l???")] + [str(int(x)) for x in m]
         run.ask("ljson", " ".join(req), "ok " + " ".join(exp), rp)
+        # the specification of the TRANSLATED _parse_ljson_v3 on the typed form of the exported document
+        run.ask("v3parse", " ".join(req), "ok " + " ".join(exp), rp)
+        # the DOCUMENT the translated ljson_exporter writes (value tree of the file, keys in file order, exact numbers);
+        # the connectivity handed to the model is what tojson() of the real shape holds
+        try:
+            with open(str(fp), "rb") as fh:
+                from collections import OrderedDict
+                doc = json.loads(fh.read().decode("utf8"), object_pairs_hook=OrderedDict)
+            req2 = [str(len(groups))]
+            for g in sorted(groups, key=lambda x: x["name"]):
+                n = len(g["points"])
+                req2 += [gid[g["name"]], str(n), str(g["dim"])] + [fcoord(v) for row in g["points"] for v in row]
+                conn = shapes[g["name"]].tojson()["landmarks"].get("connectivity")
+                req2 += ["-1"] if conn is None else [str(len(conn))] + [str(int(x)) for e in conn for x in e]
+                labs = g.get("labels", [])
+                req2.append(str(len(labs)))
+                for l, m in labs:
+                    req2 += [lid.setdefault(l, "l%d" % len(lid))] + [str(int(x)) for x in m]
+        except Exception:                            # noqa: BLE001 - the oracle above has already judged the round trip
+            doc = None
+        if doc is not None:
+            def canon(x, where=()):
+                if isinstance(x, dict):
+                    items = []
+                    for k, v in x.items():
+                        kk = gid.get(k, "g???") if where[-1:] == ("groups",) else k
+                        items.append("%s:%s" % (kk, canon(v, where + (k,))))
+                    return "{" + ",".join(items) + "}"
+                if isinstance(x, list):
+                    return "[" + ",".join(canon(v, where) for v in x) + "]"
+                if x is None:
+                    return "null"
+                if isinstance(x, str):
+                    return '"%s"' % lid.get(x, "l???")
+                return fq(x)
+            run.ask("ljsondoc", " ".join(req2), "ok " + canon(doc), rp)
+        else:
+            ctx.count("ljsondoc:skipped")
 
 
 def case_ljson_empty(run, p):
@@ -947,10 +1089,13 @@ def case_ptsn(run, p):
     ctx.count("pts:%dD:%s" % (d, "with-nan" if any(v is None for r in rows for v in r) else "complete"))
     g = {"cls": p["cls"], "dim": d, "points": rows, "edges": [[0, n - 1]] if n > 1 else []}
     exc = None
+    file_lines = None
     with Scratch() as sd:
         fp = os.path.join(sd, p["file"])
         try:
             mio.export_landmark_file(build_shape(g), fp)
+            with open(fp) as fh:
+                file_lines = [l.strip() for l in fh.readlines()]
             b = mio.import_landmark_file(fp)["PTS"].points
         except Exception as e:                      # noqa: BLE001
             exc = e
@@ -976,6 +1121,34 @@ def case_ptsn(run, p):
                 return "model %r vs implementation %r" % (parts[2:], b.tolist())
         return None
     run.ask("ptsn", " ".join(legacy_rows_tok(rows)), cmp, rp)
+    # the FILE the translated pts_exporter writes, line by line, and what the translated pts_importer makes of it
+    if file_lines is not None:
+        toks = []
+        for l in file_lines:
+            if l.startswith("{"):
+                toks.append("{")
+            elif l.startswith("}"):
+                toks.append("}")
+            else:
+                try:
+                    vals = [None if t == "nan" else F(t) for t in l.split()]
+                    toks.append("r%d %s" % (len(vals), " ".join("nan" if v is None else fq(v) for v in vals)))
+                except (ValueError, ZeroDivisionError):
+                    toks.append("H")
+        back = "ok %d %s" % (n, " ".join("nan" if c != c else fq(c) for c in b.ravel().tolist()))
+
+        def cmpf(rep, toks=toks, b=b, n=n):
+            lines, _, bk = rep.partition(" | ")
+            if lines != "ok " + " ".join(toks):
+                return "lines of the points file: model %r vs implementation %r" % (lines[:300], " ".join(toks)[:300])
+            parts = bk.split()
+            if parts[:2] != ["ok", str(n)] or len(parts) != 2 + 2 * n:
+                return "re-import of the model's file: %r vs implementation %r" % (bk[:200], b.tolist())
+            for a, c in zip(parts[2:], b.ravel().tolist()):
+                if (a == "nan") != (c != c) or (a != "nan" and not common.close(float(F(a)), c, max(abs(c), 1.0), 1e-9)):
+                    return "re-import of the model's file: %r vs implementation %r" % (parts[2:], b.tolist())
+            return None
+        run.ask("ptsfile", " ".join(legacy_rows_tok(rows)), cmpf, rp)
 
 
 def legacy_rows_tok(rows):
@@ -1820,6 +1993,15 @@ def case_guard(run, p):
             toks = listing.split()
             model_files = {os.path.relpath(a, und(d)): int(b) for a, b in zip(toks[::2], toks[1::2])}
             verdicts.append((variant, mo.strip() == io and model_files == impl_files, mo.strip(), model_files))
+        # the specifications the TRANSLATED entry points are proved equal to (third part of the reply)
+        parts = rep[3:].split(" || ")
+        if len(parts) > 2:
+            mo, _, listing = parts[2].partition(" | ")
+            toks = listing.split()
+            xfiles = {os.path.relpath(a, und(d)): int(b) for a, b in zip(toks[::2], toks[1::2])}
+            if mo.strip() != io or xfiles != impl_files:
+                return "history through the specification of the translated export_* (outcomes, final files): model %r " \
+                       "vs implementation %r" % ((mo.strip(), xfiles), (io, impl_files))
         ok = [v[0] for v in verdicts if v[1]]
         if not ok:
             return "history (outcomes, final files as path: number of the export whose bytes it holds): model %r / %r vs " \
@@ -2093,6 +2275,293 @@ def gen_norm(rng):
             "home_tail": rng.choice(["", "", "/", "//"])}
 
 
+OSLIB_COMPS = ["a", "b", "..", ".", "", "c.d", "..", "x y".replace(" ", "_"), "...", "..a", "~", "$V"]
+
+
+def gen_oslib(rng):
+    n = rng.randint(0, 6)
+    body = "/".join(rng.choice(OSLIB_COMPS) for _ in range(n))
+    lead = rng.choice(["", "", "/", "/", "//", "///", "////", "./", "../"])
+    return {"kind": "oslib", "cwd": rng.choice(["/", "/w", "/w/v.d", "/p/q/r"]), "s": lead + body + rng.choice(["", "", "/", "//", "/."])}
+
+
+def case_oslib(run, p):
+    """the library functions `_norm_path` is composed of, one by one: os.path.normpath, os.path.abspath (for a working
+    directory that need not exist: posixpath.abspath only reads os.getcwd()), str(PurePosixPath(s))"""
+    import posixpath
+    from pathlib import PurePosixPath
+    ctx = run.ctx
+    s, cwd = p["s"], p["cwd"]
+    ctx.case(("oslib", cwd, s), nontrivial=len(s) > 1)
+    ctx.count("oslib:" + ("empty" if not s else "two-slashes" if s.startswith("//") and not s.startswith("///")
+                           else "absolute" if s.startswith("/") else "relative"))
+    ab = posixpath.normpath(s if s.startswith("/") else posixpath.join(cwd, s))       # = posixpath.abspath with getcwd() = cwd
+    obs = "ok %s %s %s" % (posixpath.normpath(s), ab, str(PurePosixPath(s)))
+    run.ask("oslib", "%s %s" % (cwd, s if s else "@E@"), obs, rp_of(p))
+
+
+def gen_normsrc(rng):
+    q = gen_norm(rng)
+    sp = q["spelling"]
+    if sp.startswith("@ROOT@") and rng.random() < 0.5:
+        sp = rng.choice(["/", "//"]) + sp              # two and three leading slashes
+    return {"kind": "normsrc", "cwd": q["cwd"], "spelling": sp, "home_tail": q["home_tail"]}
+
+
+def case_normsrc(run, p):
+    """`_norm_path` as the code composes it (string by string): the model's `normPathSpec` must return the very string"""
+    from pathlib import Path
+    ctx = run.ctx
+    ctx.case(("normsrc", json.dumps(p, sort_keys=True)), nontrivial=True)
+    sp0 = p["spelling"]
+    ctx.count("normsrc:" + ("two-slashes" if sp0.startswith("/@ROOT@") else "three-slashes" if sp0.startswith("//@ROOT@")
+                             else "absolute" if sp0.startswith("@ROOT@") else "tilde" if "~" in sp0
+                             else "variable" if "$" in sp0 else "relative"))
+    try:
+        from menpo.io.utils import _norm_path
+    except (ImportError, AttributeError):
+        ctx.count("normsrc:private-helper-unavailable")
+        return
+    with Scratch() as d, EnvVars(HOME=d + p.get("home_tail", ""), C16ROOT=d, C16SUB="p/q"):
+        cwd = os.path.join(d, p["cwd"])
+        os.makedirs(cwd)
+        os.chdir(cwd)
+        sp = sp0.replace("@ROOT@", d)
+        a, b = _norm_path(Path(sp)), _norm_path(sp)
+        two = lambda x: str(x)[1:] if str(x).startswith("//") else str(x)       # the file `//x` names is `/x`
+        obs = "ok %s %s %s %s" % (a, b, two(a), two(b))
+        req = "%s 3 HOME %s C16ROOT %s C16SUB p/q %s" % (cwd, d + p.get("home_tail", ""), d, sp)
+    run.ask("normsrc", req, obs, rp_of(p))
+
+
+def case_xdec(run, p):
+    """the translated extension logic (specifications of `_possible_extensions_from_filepath`,
+    `_parse_and_validate_extension`, `importer_for_filepath`) against the live functions, for one file name"""
+    from pathlib import Path
+    ctx = run.ctx
+    kind, name = p["xkind"], p["name"]
+    ctx.case(("xdec", kind, name), nontrivial=name.count(".") > 1)
+    ctx.count("xdec:" + kind)
+    try:
+        from menpo.io.utils import _possible_extensions_from_filepath
+        from menpo.io.output.base import _parse_and_validate_extension
+        from menpo.io.input.base import importer_for_filepath
+        import menpo.io.output.extensions as ox
+        import menpo.io.input.extensions as ix
+    except (ImportError, AttributeError):
+        ctx.count("xdec:private-helper-unavailable")
+        return
+    exm = {"landmark": ox.landmark_types, "image": ox.image_types, "pickle": ox.pickle_types, "video": ox.video_types}[kind]
+    imm = {"landmark": ix.image_landmark_types, "image": ix.image_types, "pickle": ix.pickle_types,
+           "video": ix.ffmpeg_video_types}[kind]
+    fp = Path("/d") / name
+    try:
+        e = "ok " + _parse_and_validate_extension(fp, None, exm)
+    except ValueError:
+        e = "err"
+    try:
+        i = callable_name(importer_for_filepath(fp, imm))
+    except ValueError:
+        i = "err"
+    obs = "%s | %s | %s | %s" % (e, i, fp.name, " ".join(_possible_extensions_from_filepath(fp)))
+    run.ask("xdec", "%s %s" % (kind, "/d/" + name), obs, rp_of(p))
+
+
+PIX_DTYPES = ["uint8", "uint16", "float32", "float64", "bool", "int32"]
+
+
+def gen_pixdec(rng):
+    d = rng.choice(PIX_DTYPES)
+    n = rng.randint(1, 6)
+    if d in ("uint8", "uint16"):
+        top = 255 if d == "uint8" else 65535
+        vals = [rng.choice([0, 1, 33, top - 1, top, rng.randint(0, top)]) for _ in range(n)]
+    elif d == "bool":
+        vals = [rng.randint(0, 1) for _ in range(n)]
+    elif d == "int32":
+        vals = [rng.randint(-3, 300) for _ in range(n)]
+    else:
+        q = rng.random()
+        vals = [F(rng.randint(-2 if q < 0.15 else 0, 258 if q > 0.85 else 256), 256) for _ in range(n)]   # exact in binary32
+    return {"kind": "pixdec", "dtype": d, "out": rng.choice(PIX_DTYPES), "vals": [str(v) for v in vals],
+            "err": rng.random() < 0.7}
+
+
+def case_pixdec(run, p):
+    """the decision logic of normalize_pixels_range / denormalize_pixels_range (dtype ladder, range check, which
+    arithmetic) on small arrays of every dtype, against the specifications the translated functions are proved equal to"""
+    import numpy as np
+    from menpo.image.base import normalize_pixels_range, denormalize_pixels_range
+    ctx = run.ctx
+    ctx.case(("pixdec", json.dumps(p, sort_keys=True)), nontrivial=len(p["vals"]) > 1)
+    ctx.count("pixdec:%s->%s" % (p["dtype"], p["out"]))
+    vals = [F(v) for v in p["vals"]]
+    arr = np.array([float(v) for v in vals]).astype(p["dtype"])
+    tok = lambda d: d if d in ("uint8", "uint16", "float32", "float64", "bool") else "other"
+    vtok = "%d %s" % (len(vals), " ".join(fq(v) for v in vals))
+
+    def show(fn, *a):
+        try:
+            r = fn(*a)
+        except ValueError:
+            return "err"
+        return "ok %s %s" % (tok(str(r.dtype)), " ".join(fq(float(x)) for x in r.ravel().tolist()))
+    run.ask("pixnorm", "%s %d %s" % (tok(p["dtype"]), 1 if p["err"] else 0, vtok),
+            show(normalize_pixels_range, arr, p["err"]), rp_of(p))
+    run.ask("pixdenorm", "%s %s %s" % (tok(p["dtype"]), tok(p["out"]), vtok),
+            show(denormalize_pixels_range, arr, np.dtype(p["out"])), rp_of(p))
+
+
+def gen_v3doc(rng):
+    """a hand-written version-3 document: schema-valid, but with ragged / empty point lists, edges and mask indices
+    outside the point set, repeated labels, unlabelled points"""
+    groups = []
+    names = rng.sample(["a", "b", "c", "LJSON"], rng.randint(1, 3))
+    for nm in names:
+        n = rng.randint(0 if rng.random() < 0.1 else 1, 5)
+        d = rng.choice([2, 2, 3, 3, 1, 0]) if rng.random() < 0.25 else rng.choice([2, 3])
+        rows = [[None if rng.random() < 0.15 else rng.randint(-9, 40) / 4.0 for _ in range(d)] for _ in range(n)]
+        if rows and rng.random() < 0.15:
+            rows[rng.randrange(len(rows))] = rows[0][:1] + rows[0]          # ragged
+        r = rng.random()
+        top = max(n, 1) + (1 if rng.random() < 0.15 else 0)
+        conn = None if r < 0.35 else [[rng.randrange(top), rng.randrange(top)] for _ in range(rng.randint(0, 4))]
+        labels = []
+        if rng.random() < 0.6:
+            covering = rng.random() < 0.8
+            pool = ["l0", "l1", "l2", "l1"]
+            k = rng.randint(1, 3)
+            for j in range(k):
+                idx = sorted(set(rng.randrange(top) for _ in range(rng.randint(0, max(n, 1)))))
+                if covering and j == k - 1:
+                    idx = list(range(n))
+                labels.append([pool[rng.randrange(len(pool))], idx])
+        groups.append({"name": nm, "rows": rows, "conn": conn, "labels": labels})
+    return {"kind": "v3doc", "groups": groups}
+
+
+def case_v3doc(run, p):
+    """the TRANSLATED _parse_ljson_v3 / _parse_ljson_v2 (their specifications) against the real importer on a
+    hand-written document (version 2: the document is its first group)"""
+    import numpy as np
+    import menpo.io as mio
+    ctx = run.ctx
+    v2 = p.get("version") == 2
+    ctx.case(("v3doc", json.dumps(p, sort_keys=True)), nontrivial=True)
+    doc = {"version": 3, "groups": {}}
+    for g in p["groups"]:
+        lm = {"points": g["rows"]}
+        if g["conn"] is not None:
+            lm["connectivity"] = g["conn"]
+        doc["groups"][g["name"]] = {"landmarks": lm, "labels": [{"label": l, "mask": m} for l, m in g["labels"]]}
+    if v2:
+        doc = dict(doc["groups"][p["groups"][0]["name"]], version=2)
+    with Scratch() as d:
+        fp = os.path.join(d, "h.ljson")
+        with open(fp, "w") as f:
+            json.dump(doc, f)
+        import warnings
+        try:
+            with warnings.catch_warnings():
+                warnings.simplefilter("ignore")
+                back = mio.import_landmark_file(fp)
+            obs = None
+        except (IndexError, ValueError) as e:
+            back, obs = None, "err " + type(e).__name__
+        except Exception as e:                      # noqa: BLE001 - reported as a mismatch with the model
+            back, obs = None, "err other:" + type(e).__name__
+    ctx.count(("v2doc:" if v2 else "v3doc:") + (obs or "ok"))
+    gid = {g["name"]: g["name"] for g in p["groups"]}
+    if obs is None:
+        exp = [str(len(back))]
+        for nm in back.keys():                      # file order (the document is not sorted)
+            b = back[nm]
+            be = sorted(tuple(e) for e in getattr(b, "edges", np.zeros((0, 2), int)).tolist())
+            lm = label_masks(b)
+            exp += [nm, type(b).__name__, str(b.n_points), str(b.n_dims)] + [fcoord(float(v)) for v in b.points.ravel()]
+            exp += [str(len(be))] + [str(x) for e in be for x in e] + [str(len(lm))]
+            for l, m in lm:
+                exp += [l] + [str(int(x)) for x in m]
+        obs = "ok " + " ".join(exp)
+    req = [] if v2 else [str(len(p["groups"]))]
+    for g in (p["groups"][:1] if v2 else p["groups"]):
+        req += ([] if v2 else [g["name"]]) + legacy_rows_tok(g["rows"])
+        req += ["-1"] if g["conn"] is None else [str(len(g["conn"]))] + [str(x) for e in g["conn"] for x in e]
+        req += [str(len(g["labels"]))]
+        for l, m in g["labels"]:
+            req += [l, str(len(m))] + [str(x) for x in m]
+    run.ask("v2doc" if v2 else "v3doc", " ".join(req), obs, rp_of(p))
+
+
+def gen_v1doc(rng):
+    groups = []
+    d = rng.choice([2, 3])
+    for nm in [rng.choice(["g0", "g1", "g2", "g0"]) for _ in range(rng.randint(0 if rng.random() < 0.1 else 1, 3))]:
+        n = rng.randint(0 if rng.random() < 0.2 else 1, 4)
+        rows = [[None if rng.random() < 0.15 else rng.randint(-9, 40) / 4.0 for _ in range(d)] for _ in range(n)]
+        if rows and rng.random() < 0.1:
+            rows[-1] = rows[-1] + [1.5]
+        top = max(n, 1) + (1 if rng.random() < 0.2 else 0)
+        r = rng.random()
+        conn = "absent" if r < 0.3 else None if r < 0.4 else [[rng.randrange(top), rng.randrange(top)] for _ in range(rng.randint(0, 3))]
+        groups.append({"label": nm, "rows": rows, "conn": conn})
+    return {"kind": "v1doc", "groups": groups}
+
+
+def case_v1doc(run, p):
+    """the TRANSLATED _parse_ljson_v1 (its specification) against the real importer on a hand-written document"""
+    import numpy as np
+    import menpo.io as mio
+    import warnings
+    ctx = run.ctx
+    ctx.case(("v1doc", json.dumps(p, sort_keys=True)), nontrivial=True)
+    doc = {"version": 1, "groups": []}
+    for g in p["groups"]:
+        e = {"label": g["label"], "landmarks": [{"point": r} for r in g["rows"]]}
+        if g["conn"] != "absent":
+            e["connectivity"] = g["conn"]
+        doc["groups"].append(e)
+    with Scratch() as d:
+        fp = os.path.join(d, "h.ljson")
+        with open(fp, "w") as f:
+            json.dump(doc, f)
+        try:
+            with warnings.catch_warnings():
+                warnings.simplefilter("ignore")
+                back = mio.import_landmark_file(fp)
+            obs = None
+        except (IndexError, ValueError) as e:
+            back, obs = None, "err " + type(e).__name__
+        except Exception as e:                      # noqa: BLE001 - reported as a mismatch with the model
+            back, obs = None, "err other:" + type(e).__name__
+    ctx.count("v1doc:" + (obs or "ok"))
+    if obs is None:
+        exp = [str(len(back))]
+        for nm in back.keys():
+            b = back[nm]
+            be = sorted(tuple(e) for e in getattr(b, "edges", np.zeros((0, 2), int)).tolist())
+            lm = label_masks(b)
+            exp += [nm, type(b).__name__, str(b.n_points), str(b.n_dims)] + [fcoord(float(v)) for v in b.points.ravel()]
+            exp += [str(len(be))] + [str(x) for e in be for x in e] + [str(len(lm))]
+            for l, m in lm:
+                exp += [l] + [str(int(x)) for x in m]
+        obs = "ok " + " ".join(exp)
+    req = [str(len(p["groups"]))]
+    for g in p["groups"]:
+        req += [g["label"]] + legacy_rows_tok(g["rows"])
+        req += ["-1"] if g["conn"] in ("absent", None) else [str(len(g["conn"]))] + [str(x) for e in g["conn"] for x in e]
+    run.ask("v1doc", " ".join(req), obs, rp_of(p))
+
+
+def case_ljsonver(run, p):
+    """the version dispatch of ljson_importer: which parser the live table names for a version number"""
+    ctx = run.ctx
+    ctx.case(("ljsonver", p["v"]), nontrivial=True)
+    import menpo.io.input.landmark as il
+    f = il._ljson_parser_for_version.get(F(p["v"]) if "/" in p["v"] else int(p["v"]))
+    run.ask("ljsonver", p["v"], "err" if f is None else "ok " + callable_name(f), rp_of(p))
+
+
 def case_exts(run, p):
     ctx = run.ctx
     ctx.case(("exts", p["xkind"]), nontrivial=True)
@@ -2111,7 +2580,8 @@ def case_exts(run, p):
 CASES = {"ljson": case_ljson, "ljson-empty": case_ljson_empty, "pts": case_pts, "pickle": case_pickle,
          "image8": case_image8, "imagef": case_imagef, "mode": case_mode, "guard": case_guard, "ext": case_ext,
          "dec": case_dec, "legacy": case_legacy, "range": case_range, "ptsn": case_ptsn, "ptree": case_ptree, "lmfront": case_lmfront,
-         "norm": case_norm, "exts": case_exts}
+         "norm": case_norm, "exts": case_exts, "oslib": case_oslib, "normsrc": case_normsrc, "xdec": case_xdec,
+         "pixdec": case_pixdec, "ljsonver": case_ljsonver, "v3doc": case_v3doc, "v1doc": case_v1doc}
 
 
 def run_case(run, p):
@@ -2188,6 +2658,37 @@ def explore(run, k, thorough=False):
         run_case(run, gen_dec(rng, rng.choice(["pickle", "pickle", "landmark", "image"]), fmts))
     for xk in ("landmark", "image", "pickle", "video"):
         run_case(run, {"kind": "exts", "xkind": xk})
+    # the vocabulary of the translated plumbing: the library functions one by one, `_norm_path` string by string
+    # (two / three leading slashes included), the extension logic for multi-dot names
+    for s in ("", "/", "//", "///", ".", "..", "a/..", "//a/../..", "a//b/./c/", "../../a"):
+        run_case(run, {"kind": "oslib", "cwd": "/w/v.d", "s": s})
+    for _ in range(25 * k):
+        run_case(run, gen_oslib(rng))
+    for _ in range(15 * k):
+        run_case(run, gen_normsrc(rng))
+    for xk in ("pickle", "landmark", "image"):
+        for nm in DEC_NAMES[xk]:
+            run_case(run, {"kind": "xdec", "xkind": xk, "name": nm})
+    for _ in range(15 * k):
+        xk = rng.choice(["landmark", "image", "pickle", "video"])
+        run_case(run, {"kind": "xdec", "xkind": xk, "name": gen_name(rng, xk)})
+    for d_in in PIX_DTYPES:                              # every (input dtype, output dtype) pair, every run
+        for d_out in PIX_DTYPES:
+            q = gen_pixdec(rng)
+            while q["dtype"] != d_in:
+                q = gen_pixdec(rng)
+            q["out"] = d_out
+            run_case(run, q)
+    for _ in range(10 * k):
+        run_case(run, gen_pixdec(rng))
+    for v in ("0", "1", "2", "3", "4", "5/2"):
+        run_case(run, {"kind": "ljsonver", "v": v})
+    for _ in range(15 * k):
+        run_case(run, gen_v3doc(rng))
+    for _ in range(10 * k):
+        run_case(run, dict(gen_v3doc(rng), version=2))
+    for _ in range(10 * k):
+        run_case(run, gen_v1doc(rng))
 
 
 def search(ctx):
@@ -2208,11 +2709,12 @@ def search(ctx):
 
 def run(ctx):
     gen_ok = generated(ctx)
-    if gen_ok:
-        common.prepare_lean(ctx, PROP, IMPORTS + [GEN_IMPORT], THEOREMS + GEN_THEOREMS,
-                            targets=TARGETS + [GEN_IMPORT])
-    else:      # a regenerated obligation no longer checks: audit what still builds, then let the oracle search
-        common.prepare_lean(ctx, PROP, IMPORTS, THEOREMS, targets=TARGETS)
+    src_mods, src_thms = generated_src(ctx)
+    # a regenerated obligation that no longer checks is left out of the audit (what still builds is audited), then the
+    # oracle searches
+    common.prepare_lean(ctx, PROP, IMPORTS + ([GEN_IMPORT] if gen_ok else []) + src_mods,
+                        THEOREMS + (GEN_THEOREMS if gen_ok else []) + src_thms,
+                        targets=TARGETS + ([GEN_IMPORT] if gen_ok else []) + src_mods)
     ctx.trusted += ["Lean Float = IEEE binary64 as numpy float64 (validated on all 256 eight-bit values each run)",
                     "contracts: json, '%.3f', PIL lossless codecs (probed per run), pickle, gzip, os.path"]
     r = Run(ctx)
